@@ -62,6 +62,36 @@ func Load(spec LoadSpec) (*Program, error) {
 		out.Pkgs[pkgs[i].PkgPath] = p
 	}
 	out.ExecPkgs = []string{"github.com/medibloc/panacea-core/v2", "github.com/cosmos/cosmos-sdk/x/nft"}
+	// Build, before any worker starts, every package whose functions may be
+	// executed from SSA: interpreting a function while another goroutine is
+	// still building/lifting its package is a data race (seen as "block without
+	// terminator" / unlifted ssa:deferstack in a cold run).
+	need := map[string]bool{}
+	for f := range execFuncs {
+		name := strings.TrimPrefix(strings.TrimPrefix(f, "("), "*")
+		if i := strings.LastIndex(name, "."); i > 0 {
+			name = name[:i]
+			if j := strings.LastIndex(name, ")"); j >= 0 {
+				name = name[:j]
+			}
+			if k := strings.LastIndex(name, "."); k > strings.LastIndex(name, "/") {
+				name = name[:k]
+			}
+			need[name] = true
+		}
+	}
+	for _, p := range prog.AllPackages() {
+		path := p.Pkg.Path()
+		exec := need[path]
+		for _, pre := range out.ExecPkgs {
+			if path == pre || strings.HasPrefix(path, pre+"/") {
+				exec = true
+			}
+		}
+		if exec {
+			p.Build()
+		}
+	}
 	return out, nil
 }
 
